@@ -120,6 +120,7 @@ type c15dWorld struct {
 	types  [6]*cdialer.NetworkType
 	dials  []int
 	hist   []string
+	sticky bool // the sets still are in the state the checked selection saw
 }
 
 func (w *c15dWorld) logf(f string, a ...any) { w.hist = append(w.hist, fmt.Sprintf(f, a...)) }
@@ -320,6 +321,18 @@ func (w *c15dWorld) checkChoice(what string, q *c15dQuery, got *cdialer.Dialer, 
 	if q.ex != nil && q.ex.alive[tried[0]] {
 		classes, nontrivial = append(classes, "excluded_was_candidate"), true
 	}
+	// sticky choice (min policies): excluding a node other than the current choice
+	// of the set that serves the request must not change the answer.
+	if w.sticky && q.exD != nil && (w.policy.Policy == consts.DialerSelectionPolicy_MinLastLatency ||
+		w.policy.Policy == consts.DialerSelectionPolicy_MinAverage10Latencies ||
+		w.policy.Policy == consts.DialerSelectionPolicy_MinMovingAverageLatencies) {
+		if best, _ := w.g.MustGetAliveDialerSet(w.types[first]).GetMinLatency(nil); best != nil && best != q.exD {
+			if got != best {
+				w.fatalf("%s returned %s although the excluded node is not the current choice %s of %s: the choice may only change for the licensed reasons, not because some other node is excluded", what, g.name, w.name(best), c15dSlotNames[first])
+			}
+			classes, nontrivial = append(classes, "sticky_under_other_exclusion"), true
+		}
+	}
 	// min policies: nobody eligible and measured beats the pick by the tolerance.
 	if gp, gm := w.pub(g, first); gm {
 		for _, e := range w.eligible(first, q.ex) {
@@ -482,6 +495,7 @@ func c15RunDialCase(t *rapid.T, cleanup *[]func()) {
 			if err != nil {
 				got = nil
 			}
+			w.sticky = true
 			cl, nt := w.checkChoice("chooseProxyDialer", q, got, res, err)
 			classes, nontrivial = append(classes, cl...), nontrivial || nt
 			if res != nil && res.Outbound != w.g {
@@ -518,7 +532,15 @@ func c15RunDialCase(t *rapid.T, cleanup *[]func()) {
 				cl, nt := w.checkChoice("routeDial(no dial)", q, nil, nil, err)
 				classes, nontrivial = append(classes, cl...), nontrivial || nt
 			} else {
+				real := make([][6]bool, nNodes)
+				for j, n := range w.nodes {
+					for s := range real[j] {
+						real[j][s] = n.d.MustGetAlive(w.types[s])
+					}
+				}
+				w.sticky = fmt.Sprint(pre) == fmt.Sprint(real) // no force-mark happened in between
 				cl, nt := w.checkChoice("routeDial attempt 1", q, w.nodes[w.dials[0]].d, nil, nil)
+				w.sticky = true
 				classes, nontrivial = append(classes, cl...), nontrivial || nt
 				if len(w.dials) > 2 {
 					w.fatalf("routeDial [%s] dialed %d times", q, len(w.dials))
